@@ -1757,6 +1757,14 @@ func main() {
 		if spec.Procs > 0 {
 			cmd.Env = append(cmd.Env, fmt.Sprintf("GOMAXPROCS=%d", spec.Procs))
 		}
+		if (len(spec.Modes) == 1 && spec.Modes[0] == "single") || spec.N == -4 {
+			dir, err := os.MkdirTemp("", "hC10-single-")
+			if err != nil {
+				panic(err)
+			}
+			defer os.RemoveAll(dir)
+			cmd.Env = append(cmd.Env, "HC10_SINGLE_DIR="+dir)
+		}
 		cmd.Stdin = bytes.NewReader(stdin)
 		var so, se bytes.Buffer
 		cmd.Stdout = &so
